@@ -19,7 +19,9 @@ ACCESSOR_OPS = (
     'music.get_channel', 'music.set_channel', 'music.get_properties',
     'music.set_properties',
 )
+COPY_OP = 'map.copy_rect'      # get_rect_tiles, then set_rect_tiles(result)
 RAW_OP = 'game.write_cart_data'
+ACCESSOR_OPS = ACCESSOR_OPS + (COPY_OP, 'gfx.copy_sprite')
 ALL_OPS = ACCESSOR_OPS + (RAW_OP,)
 
 B = models.BOUNDARIES
@@ -108,6 +110,27 @@ def gen_op(rng, kind):
         a = {'rect': _tile_rect(rng),
              'x': _edge(rng, 0, 127, [0, 120, 125, 126, 127]),
              'y': _edge(rng, 0, 63, [0, 30, 31, 32, 58, 60, 62, 63])}
+    elif kind == COPY_OP:
+        x = _edge(rng, 0, 127, [0, 120, 125, 126, 127])
+        y = _edge(rng, 0, 63, [0, 30, 31, 32, 60, 62, 63])
+        h = rng.randint(1, min(64 - y, 6))
+        w_ = rng.choice([1, 2, 3, 5, max(1, 128 - x), max(1, 130 - x)])
+        # destinations overlapping the source are the interesting ones
+        dx = x + rng.choice([0, 1, -1, 2, 0]) if rng.random() < 0.7 \
+            else rng.randint(0, 127)
+        dy = y + rng.choice([0, 1, -1, 0, 2]) if rng.random() < 0.7 \
+            else rng.randint(0, 63)
+        a = {'x': x, 'y': y, 'width': w_, 'height': h,
+             'dx': min(127, max(0, dx)), 'dy': min(63, max(0, dy))}
+    elif kind == 'gfx.copy_sprite':
+        a = {'id': _edge(rng, 0, 255, [0, 15, 16, 240, 255, 127, 128]),
+             'tile_width': rng.choice([1, 1, 2, 3]),
+             'tile_height': rng.choice([1, 1, 2, 3]),
+             'dest': _edge(rng, 0, 255, [0, 15, 16, 240, 255, 127, 128]),
+             'tile_x_offset': rng.choice([0, 0, 1, 4, 7]),
+             'tile_y_offset': rng.choice([0, 0, 1, 4, 7])}
+        if rng.random() < 0.5:
+            a['dest'] = a['id']          # overlapping copy
     elif kind.startswith('gff.'):
         a = {'id': _edge(rng, 0, 255, [0, 1, 254, 255]),
              'flags': rng.choice([1, 2, 4, 8, 16, 32, 64, 128, 255, 0,
@@ -163,6 +186,9 @@ def gen_op(rng, kind):
         raise core.HarnessError(kind)
     if kind != RAW_OP and rng.random() < 0.5:
         a['pos'] = True
+    if kind in ('gfx.set_sprite', 'map.set_rect_tiles') and \
+            rng.random() < 0.4:
+        a['rows_as'] = rng.choice(['tuple', 'iter', 'gen', 'bytearray'])
     return {'op': kind, 'args': a}
 
 
@@ -181,10 +207,11 @@ def boundary_pairs():
 
 
 def gen_init(rng):
-    mode = rng.choice(['bytes'] * 8 + ['p8', 'png'])
+    mode = rng.choice(['bytes'] * 8 + ['p8', 'png', 'empty', 'empty'])
     regions = {}
     for k in refcodec.REGIONS:
-        regions[k] = rng.choice(['zero', 'empty'] + [rng.randint(1, 10**9)] * 4)
+        regions[k] = 'empty' if mode == 'empty' else rng.choice(
+            ['zero', 'empty'] + [rng.randint(1, 10**9)] * 4)
     return {'mode': mode, 'regions': regions,
             'version': rng.choice([8, 16, 33])}
 
@@ -244,7 +271,10 @@ def _build_game(w, init):
             'code': {'$txt': 'x=1\n'}}
     cart = refcodec.cart_from_spec(spec)
     mode = init['mode']
-    if mode == 'bytes':
+    if mode == 'empty':
+        # exactly what the documented factory delivers
+        g = pgame.Game.make_empty_game(version=cart['version'])
+    elif mode == 'bytes':
         v = cart['version']
         g = pgame.Game.make_empty_game(version=v)
         g.gfx = Gfx.from_bytes(cart['gfx'], version=v)
@@ -274,8 +304,8 @@ def _norm(v):
     """Normalise a getter result for comparison."""
     if isinstance(v, (list, tuple)):
         return [_norm(x) for x in v]
-    if isinstance(v, (bytes, bytearray)):
-        return list(v)
+    if isinstance(v, (bytes, bytearray, memoryview)):
+        return list(bytes(v))
     if isinstance(v, bool):
         return bool(v)
     return v
@@ -339,7 +369,17 @@ def _model(m, op, a):
     if op == RAW_OP:
         data = core.rnd_bytes(a['data_seed'], a['len'])
         return None, not m.write_cart_data(data, a['start_addr'])
-    kw = {k: v for k, v in a.items() if k not in ('as_bytearray', 'pos')}
+    kw = {k: v for k, v in a.items() if k not in ('as_bytearray', 'pos',
+                                                  'rows_as')}
+    if op == COPY_OP:
+        rect = m.map_get_rect_tiles(a['x'], a['y'], a['width'], a['height'])
+        m.map_set_rect_tiles(rect, a['dx'], a['dy'])
+        return rect, False
+    if op == 'gfx.copy_sprite':
+        spr = m.gfx_get_sprite(a['id'], a['tile_width'], a['tile_height'])
+        m.gfx_set_sprite(a['dest'], spr, a['tile_x_offset'],
+                         a['tile_y_offset'])
+        return spr, False
     if op == 'gfx.set_sprite':
         return m.gfx_set_sprite(kw['id'], kw['sprite'],
                                 kw.get('tile_x_offset', 0),
@@ -369,15 +409,34 @@ POSITIONAL = {
 }
 
 
+def _rows(rows, a):
+    """The documented argument type is 'an iterable of iterables': lists,
+    bytearrays, tuples, one-shot iterators and generators are all legal."""
+    kind = a.get('rows_as') or ('bytearray' if a.get('as_bytearray')
+                                else 'list')
+    if kind == 'bytearray':
+        return [bytearray(r) for r in rows]
+    if kind == 'tuple':
+        return tuple(tuple(r) for r in rows)
+    if kind == 'iter':
+        return [iter(list(r)) for r in rows]
+    if kind == 'gen':
+        return ((v for v in r) for r in rows)
+    return [list(r) for r in rows]
+
+
 def _real(g, op, a):
     """Apply op to the real game -> result (may raise).  With a['pos'] the
     arguments are passed positionally in the documented order (as far as they
     are given contiguously), otherwise by keyword."""
     sec, meth = op.split('.')
     if a.get('pos') and op in POSITIONAL:
-        kw = {k: v for k, v in a.items() if k not in ('as_bytearray', 'pos')}
-        if op == 'gfx.set_sprite' and a.get('as_bytearray'):
-            kw['sprite'] = [bytearray(r) for r in kw['sprite']]
+        kw = {k: v for k, v in a.items() if k not in ('as_bytearray', 'pos',
+                                                      'rows_as')}
+        if op == 'gfx.set_sprite':
+            kw['sprite'] = _rows(kw['sprite'], a)
+        if op == 'map.set_rect_tiles':
+            kw['rect'] = _rows(kw['rect'], a)
         args = []
         for name in POSITIONAL[op]:
             if name in kw:
@@ -392,15 +451,25 @@ def _real(g, op, a):
         if a.get('positional', True):
             return g.write_cart_data(data, a['start_addr'])
         return g.write_cart_data(data=data, start_addr=a['start_addr'])
+    if op == COPY_OP:
+        rect = g.map.get_rect_tiles(a['x'], a['y'], a['width'], a['height'])
+        snapshot = _norm(rect)
+        g.map.set_rect_tiles(rect, a['dx'], a['dy'])
+        return snapshot
+    if op == 'gfx.copy_sprite':
+        spr = g.gfx.get_sprite(a['id'], a['tile_width'], a['tile_height'])
+        snapshot = _norm(spr)
+        g.gfx.set_sprite(a['dest'], spr, a['tile_x_offset'],
+                         a['tile_y_offset'])
+        return snapshot
     target = getattr(g, sec)
     kw = {k: v for k, v in a.items() if k not in ('as_bytearray', 'pos')}
+    kw.pop('rows_as', None)
     if op == 'gfx.set_sprite':
-        spr = kw.pop('sprite')
-        if a.get('as_bytearray'):
-            spr = [bytearray(r) for r in spr]
+        spr = _rows(kw.pop('sprite'), a)
         return target.set_sprite(kw.pop('id'), spr, **kw)
     if op == 'map.set_rect_tiles':
-        return target.set_rect_tiles(kw['rect'], kw['x'], kw['y'])
+        return target.set_rect_tiles(_rows(kw['rect'], a), kw['x'], kw['y'])
     return getattr(target, meth)(**kw)
 
 
@@ -428,6 +497,14 @@ def execute(sc):
             ev.append(('init-mismatch',))
             return res
         changed_any = False
+        # a second game built the same way must stay as it is (no sharing of
+        # buffers between instances), and so must this game's label
+        g2, _cart2 = _build_game(w, dict(sc['init'], mode='bytes')
+                                 if sc['init']['mode'] != 'empty'
+                                 else sc['init'])
+        bystander0 = _flat(g2)
+        label0 = bytes(g.label._data) if getattr(g, 'label', None) else None
+        retained = []
         for step, o in enumerate(sc['ops']):
             op, a = o['op'], o['args']
             prop = 'C18' if op == RAW_OP else 'C17'
@@ -519,6 +596,9 @@ def execute(sc):
                                               _brief(_norm(r2)),
                                               _brief(_norm(m2))), step)
                             break
+            if outcome == 'ok' and '.get_' in op and \
+                    isinstance(real, (list, tuple)):
+                retained.append((step, op, a, real, _norm(real)))
             if bytes(m.m) != before:
                 changed_any = True
             if ec not in ('-', 'inside', 'upper') and op != RAW_OP:
@@ -532,12 +612,43 @@ def execute(sc):
                        core.sha(flat)[:16]))
             if res['violations']:
                 break
+        if not res['violations']:
+            for (step, op, a, obj, was) in retained:
+                if _norm(obj) != was:
+                    core.violation(
+                        res, 'C17', 'C17:%s:result-aliases-memory' %
+                        op.split('.')[1],
+                        'C17|%s|returned value changed after later edits' % op,
+                        'the value returned by %s(%s) at step %d changed '
+                        'after later operations: it was %s, it is now %s' % (
+                            op, _brief(a), step, _brief(was),
+                            _brief(_norm(obj))), step)
+                    break
+        if not res['violations']:
+            if _flat(g2) != bystander0:
+                core.violation(
+                    res, 'C17', 'C17:other-game-modified',
+                    'C17|edits leaked into another Game instance',
+                    'a second Game built the same way changed although no '
+                    'operation addressed it (history: %s)' % _brief(
+                        [o['op'] for o in sc['ops']]))
+            elif label0 is not None and getattr(g, 'label', None) and \
+                    bytes(g.label._data) != label0:
+                core.violation(
+                    res, 'C17', 'C17:label-modified',
+                    'C17|edits leaked into the label',
+                    'the label bytes changed although no operation addresses '
+                    'the label (history: %s)' % _brief(
+                        [o['op'] for o in sc['ops']]))
         res['nontrivial'] = changed_any or bool(res['violations'])
     return res
 
 
 def _brief(a):
-    s = core.dumps(a)
+    try:
+        s = core.dumps(a)
+    except TypeError:
+        s = repr(a)
     return s if len(s) < 400 else s[:400] + '...'
 
 
